@@ -4,6 +4,7 @@ import (
 	"fmt"
 	"go/types"
 	"math/big"
+	"os"
 	"regexp"
 	"strconv"
 	"strings"
@@ -85,6 +86,8 @@ func (env *Env) heap(name string) Term {
 	}
 	return env.st.get(name)
 }
+
+var noAutoTriggers = os.Getenv("QV_NOTRIG") != ""
 
 type specError struct{ msg string }
 
@@ -180,7 +183,7 @@ func (env *Env) tr(x Expr) TV {
 			return TV{"(_ +oo 11 53)", tyF64}
 		}
 		// nullary spec function / constant
-		if sf := e.P.specs[x.Name]; sf != nil && len(sf.Params) == 0 {
+		if sf := e.P.lookupSpec(x.Name, env.pkg); sf != nil && len(sf.Params) == 0 {
 			return env.callSpec(sf, nil)
 		}
 		// package-level constant of the current package
@@ -241,6 +244,19 @@ func (env *Env) tr(x Expr) TV {
 		q := "exists"
 		if x.Forall {
 			q = "forall"
+		}
+		if len(x.Trig) == 0 && !noAutoTriggers {
+			var names []string
+			for _, v := range x.Vars {
+				names = append(names, fmt.Sprintf("q%d_%s", env.depth, sanitize(v.Name)))
+			}
+			if ts := autoTriggers(body, names); len(ts) > 0 {
+				var pats []string
+				for _, t := range ts {
+					pats = append(pats, ":pattern ("+t+")")
+				}
+				body = "(! " + body + " " + strings.Join(pats, " ") + ")"
+			}
 		}
 		return TV{fmt.Sprintf("(%s (%s) %s)", q, strings.Join(binders, " "), body), tyBool}
 	case *EIndex:
@@ -338,10 +354,10 @@ func (env *Env) indexTV(b, i TV) TV {
 	switch u := b.Ty.Underlying().(type) {
 	case *types.Slice:
 		if bt, ok := env.lookupBacking(b.T); ok {
-			return TV{app("select", app(env.derefOf(bt), bt), app("+", app("s_off", b.T), i.T)), u.Elem()}
+			return TV{app("select", app(env.derefOf(bt), bt), app("idx", b.T, i.T)), u.Elem()}
 		}
 		h := env.heap(e.elemHeap(u.Elem()))
-		return TV{app("select", app("select", h, app("s_arr", b.T)), app("+", app("s_off", b.T), i.T)), u.Elem()}
+		return TV{app("select", app("select", h, app("s_arr", b.T)), app("idx", b.T, i.T)), u.Elem()}
 	case *types.Array:
 		return TV{app("select", b.T, i.T), u.Elem()}
 	case *types.Map:
@@ -528,6 +544,9 @@ func (env *Env) callSpec(sf *SpecFunc, args []TV) TV {
 			specFail("%v", err)
 		}
 		name := "spec_" + sanitize(sf.Name)
+		if len(e.P.specs[sf.Name]) > 1 {
+			name = "spec_" + sanitize(shortPkg(sf.Pkg)+"_"+sf.Name)
+		}
 		e.decl("fn:"+name, fmt.Sprintf("(declare-fun %s (%s) %s)", name, strings.Join(asorts, " "), e.sortOf(rt)))
 		var ts []Term
 		for _, a := range args {
@@ -564,7 +583,7 @@ func (env *Env) callSpec(sf *SpecFunc, args []TV) TV {
 // they read as extra parameters.
 func (env *Env) callRecSpec(sf *SpecFunc, args []TV) TV {
 	e := env.e
-	name := "rec_" + sanitize(sf.Name)
+	name := "rec_" + sanitize(shortPkg(sf.Pkg)+"_"+sf.Name)
 	info := e.recInfo(sf)
 	fuel := Term("(FS (FS FZ))")
 	for x := env; x != nil; x = x.parent {
@@ -591,9 +610,12 @@ func (env *Env) callRecSpec(sf *SpecFunc, args []TV) TV {
 				e.decl("fn:"+deref, fmt.Sprintf("(declare-fun %s (Int) (Array Int %s))", deref, es))
 				fact := fmt.Sprintf("(= (%s (%s %s)) %s)", deref, hid, T, T)
 				if qv := boundVarsIn(T); len(qv) > 0 {
-					specFail("recursive spec %s applied to a slice that depends on a quantified variable", sf.Name)
-				}
-				if !e.declared["fact:"+fact] {
+					ax := fmt.Sprintf("(assert (forall ((A (Array Int %s))) (! (= (%s (%s A)) A) :pattern ((%s A)))))", es, deref, hid, hid)
+					if !e.declared["ax:"+ax] {
+						e.declared["ax:"+ax] = true
+						e.axioms = append(e.axioms, ax)
+					}
+				} else if !e.declared["fact:"+fact] {
 					e.declared["fact:"+fact] = true
 					e.lateFacts = append(e.lateFacts, "(assert "+fact+")")
 				}
@@ -614,7 +636,7 @@ type recInfo struct {
 	elemSort map[int]string
 }
 
-var boundVarRe = regexp.MustCompile(`\bq[0-9]+_[A-Za-z0-9_]+`)
+var boundVarRe = regexp.MustCompile(`\bq[0-9]+_[A-Za-z0-9_]+|\bhp_[A-Za-z0-9_@!]+|\ba_[A-Za-z0-9_]+|\bb_[A-Za-z0-9_]+`)
 
 func boundVarsIn(t Term) []string { return boundVarRe.FindAllString(t, -1) }
 
@@ -626,7 +648,7 @@ func (e *Enc) recInfo(sf *SpecFunc) *recInfo {
 		m = map[string]*recInfo{}
 		recInfos[e] = m
 	}
-	if ri, ok := m[sf.Name]; ok {
+	if ri, ok := m[sf.Pkg+"."+sf.Name]; ok {
 		return ri
 	}
 	rt, err := e.P.resolveType(sf.Result, sf.Pkg)
@@ -634,7 +656,7 @@ func (e *Enc) recInfo(sf *SpecFunc) *recInfo {
 		specFail("%v", err)
 	}
 	ri := &recInfo{result: rt, arrParam: map[int]string{}, elemSort: map[int]string{}}
-	m[sf.Name] = ri
+	m[sf.Pkg+"."+sf.Name] = ri
 	for i, p := range sf.Params {
 		pt, err := e.P.resolveType(p.Type, sf.Pkg)
 		if err != nil {
@@ -697,7 +719,7 @@ func (e *Enc) recInfo(sf *SpecFunc) *recInfo {
 		names = append(names, f[0])
 		sorts = append(sorts, strings.TrimPrefix(b[1:len(b)-1], f[0]+" "))
 	}
-	fname := "rec_" + sanitize(sf.Name)
+	fname := "rec_" + sanitize(shortPkg(sf.Pkg)+"_"+sf.Name)
 	e.decls = append(e.decls, fmt.Sprintf("(declare-fun %s (Fuel %s) %s)", fname, strings.Join(sorts, " "), e.sortOf(rt)))
 	allB := "(fuel Fuel) " + strings.Join(binders, " ")
 	lhs := fmt.Sprintf("(%s (FS fuel) %s)", fname, strings.Join(names, " "))
@@ -796,7 +818,8 @@ func (env *Env) trCall(x *ECall) TV {
 		return TV{app("fp.eq", env.tr(x.Args[0]).T, env.tr(x.Args[1]).T), tyBool}
 	case "f64":
 		argN(1)
-		return TV{app("(_ to_fp 11 53)", "RNE", app("to_real", env.tr(x.Args[0]).T)), tyF64}
+		e.decl("fn:i2f", "(declare-fun i2f (Int) F64)")
+		return TV{app("i2f", env.tr(x.Args[0]).T), tyF64}
 	case "trunc":
 		argN(1)
 		e.decl("fn:f2i", "(declare-fun f2i (F64) Int)")
@@ -836,7 +859,7 @@ func (env *Env) trCall(x *ECall) TV {
 	case "zero":
 		specFail("zero() needs a type")
 	}
-	if sf := e.P.specs[x.Fn]; sf != nil {
+	if sf := e.P.lookupSpec(x.Fn, env.pkg); sf != nil {
 		var args []TV
 		for _, a := range x.Args {
 			args = append(args, env.tr(a))
